@@ -292,7 +292,8 @@ class RecJson:
 # --------------------------------------------------------------------------------------------------------------
 BENIGN = ["hello there", "the weather is fine", "compute 2+2", "lorem ipsum dolor", "", "a\tb\nc", "x",
           "héllo wörld", "привет мир", "καλημέρα κόσμε", "日本語のテキスト", "emoji 🙂 text", "tab\there",
-          "please summarise this paragraph for me", "what is the capital of France?", "{\"a\": 1}", "[1, 2, 3]"]
+          "please summarise this paragraph for me", "what is the capital of France?", "{\"a\": 1}", "[1, 2, 3]",
+          "pseudocode is fine", "first line\nbegin7 of the second", "the end9\nand more"]
 HOSTILE = ["\x00", "a\x01b", "\x1f", "\ud800", "x\udfffy", "\ud83d", "\x7f", "​", "﻿", "\r\n"]
 
 # regex -> instances that it matches (vetted at setup with the real `re`)
@@ -323,10 +324,29 @@ RX_INSTANCES = {
     r"s[e3]cr[e3]t": ["secret", "S3CRET"],
     r"проба\d": ["проба1", "ПРОБА2"],
     r"": [""],
+    # a user's regexes whose meaning depends on the compile flags (MULTILINE: `^` / `$` per line; DOTALL: `.` eats a
+    # line feed) or on the exact pattern text (blanks at its ends); anchored ones fail their embedding hypothesis by
+    # design - that is the user's regex and is reported under `assumptions`
+    r"^begin\d": ["begin1", "BEGIN2 now"],
+    r"b.c": ["bxc", "B C"],
+    r"end\d$": ["end2", "the END3"],
+    r" sudo ": [" sudo ", "run SUDO now"],
+}
+# strings a regex must NOT match although a sloppier reading of it would (pattern stripped / truncated, another compile
+# flag, `match` for `search`, a quantifier off by one)
+NEAR_MISS = {
+    r" sudo ": ["pseudocode", "sudo", "use sudo"],
+    r"^begin\d": ["x\nbegin1", "  begin1"],
+    r"end\d$": ["end2\nmore", "end2 "],
+    r"b.c": ["b\nc", "bc"],
+    r"evil\d+": ["evil", "evi1"],
+    r"x{3}y": ["xxy", "xx y"],
+    r"\bzeta\d\b": ["zeta77", "azeta7"],
+    r"s[e3]cr[e3]t": ["sacret", "secr3"],
 }
 CUSTOM_SUB = ["secret sauce", "BadWord", "Omega Word", "öl", "ЯД", "ab", "a", "", "🙂!", "\x01x", "DROP TABLE",
               "HACK\u03a3", "stra\u00dfe", "\u03c3\u03bf\u03c6\u03cc\u03c2"]
-CUSTOM_RX = [r"evil\d+", r"x{3}y", r"\bzeta\d\b", r"s[e3]cr[e3]t", r"проба\d", r""]
+CUSTOM_RX = [r"evil\d+", r"x{3}y", r"\bzeta\d\b", r"s[e3]cr[e3]t", r"проба\d", r"", r"^begin\d", r"b.c", r"end\d$", r" sudo "]
 BAD_RX = ["(unclosed", "[a-", "*x", "(?P<n>a)(?P<n>b)"]
 
 
@@ -545,7 +565,7 @@ class C10(Prop):
         # depends on how the shipped pattern is spelled
         self.inst_of = {}
         self.shipped_without_instance = []
-        pool = ATTACK_CORPUS + [i for v in RX_INSTANCES.values() for i in v]
+        pool = ATTACK_CORPUS + [x for v in NEAR_MISS.values() for x in v] + [i for v in RX_INSTANCES.values() for i in v]
         for tok in self.mb_builtin + self.in_builtin:
             pat, _, rx = self._parse_sig(tok)
             if (pat, rx) in self.inst_of:
@@ -571,7 +591,7 @@ class C10(Prop):
         self.acheck["shipped_signatures_without_instance"] = len(self.shipped_without_instance)
         # the regex model's character tables against the real `re`, on every code point of the text material (generated
         # inputs are made of this material, separators and digits) and every literal of the shipped regexes
-        material = "".join(BENIGN + HOSTILE + CUSTOM_SUB + ATTACK_CORPUS + [i for v in RX_INSTANCES.values() for i in v]
+        material = "".join(BENIGN + HOSTILE + CUSTOM_SUB + ATTACK_CORPUS + [x for v in NEAR_MISS.values() for x in v] + [i for v in RX_INSTANCES.values() for i in v]
                            + [i for v in self.inst_of.values() for i in v]) + SEPS + "0123456789#tw "
         lits = "".join(sorted({ch for tok in self.mb_builtin + self.in_builtin if tok.endswith("/1")
                                for ch in self._parse_sig(tok)[0] if ord(ch) < 128}))
@@ -580,7 +600,7 @@ class C10(Prop):
             if d:
                 raise AssertionError(f"regex model tables differ from re on U+{ord(ch):04X}: {d}")
         self.acheck["regex_table_code_points_checked"] = len(set(material))
-        for t in BENIGN + HOSTILE + CUSTOM_SUB + ATTACK_CORPUS + [i for v in RX_INSTANCES.values() for i in v]:
+        for t in BENIGN + HOSTILE + CUSTOM_SUB + ATTACK_CORPUS + [x for v in NEAR_MISS.values() for x in v] + [i for v in RX_INSTANCES.values() for i in v]:
             bad = [c for c in t if ord(c) in self.lower_exc]
             if bad:
                 raise AssertionError(f"generator text {t!r} contains a code point on which foldStd differs from casefold")
@@ -655,6 +675,11 @@ class C10(Prop):
             return c
         if k < 0.53:
             return rng.choice(HOSTILE) + rng.choice(["", "jailbreak", " ignore previous"])
+        if 0.545 <= k < 0.6:
+            near = [x for s_ in active for x in NEAR_MISS.get(self._parse_sig(s_)[0], []) if s_.endswith("/1")]
+            if near:
+                c = rng.choice(near)
+                return c if rng.random() < 0.5 else self._embed(rng, c, True)
         if huge_ok and k < 0.545:
             n = rng.choice([99_990, 100_000, 100_001, 120_000])
             inst = self._instance(rng, rng.choice(active)) if rng.random() < 0.6 else ""
@@ -1131,6 +1156,26 @@ class C10(Prop):
                         shipped.append({"lines": [" ".join(["inn", str(thr), "15", "none"] + list(table))]
                                         + ["check " + hexs(v) for v in variants_of(inst)] + ["istats"],
                                         "note": "shipped innate pattern (in the full table / alone) x threshold x variants"})
+        # 100k+ inputs with an instance of a shipped signature at the very end / the very beginning (both gates, regex
+        # and substring signatures): what a scan that looks at a prefix / a suffix / a sample of the input misses
+        for gate, table in (("mem", self.mb_builtin), ("inn", self.in_builtin)):
+            picked = []
+            for want_rx in (True, True, False):
+                for tok in table:
+                    pat, lvl, rx = self._parse_sig(tok)
+                    insts = self.inst_of.get((pat, rx), [])
+                    if rx == want_rx and insts and tok not in [x[0] for x in picked] and lvl >= 2:
+                        picked.append((tok, insts[-1], lvl))
+                        break
+            for tok, inst, lvl in picked:
+                head = "mem 2 none 1" if gate == "mem" else "inn 3 15 L:0:400000"
+                op = "filter " if gate == "mem" else "check "
+                shipped.append({"lines": [" ".join([head] + list(table)),
+                                          op + enc(("ab ", 33400), "\n", inst),
+                                          op + enc(inst, " ", ("z", 100_001)),
+                                          op + enc(("lorem ipsum. ", 4000), inst.upper(), " ", ("q", 50_000)),
+                                          "stats" if gate == "mem" else "istats"],
+                                "note": "100k+ input with an instance of a shipped signature at the end / start / middle"})
         retune = []
         for r0 in ["none", "0", "1", "2", "3"]:
             for r1 in ["none", "0", "1", "2", "3", "5"]:
